@@ -609,9 +609,9 @@ Qed.
 
 (* ------------------------------------------------------------------ G. approximate KKT + strong convexity => near the minimiser (quantitative)
    x  : the returned point, multipliers lam >= 0, Lagrangian gradient of norm <= eg, possibly slightly infeasible;
-   xs : an exact KKT point (the constrained minimiser) with multipliers lam*;  d = |x - xs|;
+   xs : an exact KKT point (the constrained minimiser) with multipliers lam_s;  d = |x - xs|;
    f mu-strongly convex in the first-order sense at both points, constraints concave in the first-order sense.
-   S = sum lam_i max(c_i(x),0)   (complementarity slack of x),  Vi = sum lam*_i max(-c_i(x),0)  (infeasibility of x weighted by lam*).
+   S = sum lam_i max(c_i(x),0)   (complementarity slack of x),  Vi = sum lam_s_i max(-c_i(x),0)  (infeasibility of x weighted by lam_s).
    Then  mu d^2 <= eg d + S + Vi,  hence  d <= (eg + sqrt(eg^2 + 4 mu (S + Vi))) / (2 mu). *)
 Section StrongConvex.
   Variable V : Type.
@@ -650,7 +650,7 @@ Section StrongConvex.
     assert (0 <= lam * c xs) by (apply Rmult_le_pos; lra). lra.
   Qed.
 
-  (* at xs: exact KKT rows, constraints concave  =>  <sum lam* grad c (xs), x - xs> >= -Vi *)
+  (* at xs: exact KKT rows, constraints concave  =>  <sum lam_s grad c (xs), x - xs> >= -Vi *)
   Lemma pairing_lower_at_xs cons : kkt_rows_exact V xs cons -> concave_cons V xs cons ->
     - weighted_violation cons <= lagr_pairing V xs cons x.
   Proof.
@@ -696,6 +696,8 @@ Section StrongConvex.
     { apply weighted_violation_nonneg. destruct HKs as [_ HK]. unfold mult_nonneg. eapply Forall_impl; [|exact HK].
       intros [[lam c] dc]. tauto. }
     set (T := comp_slack cons + weighted_violation cons_s) in *.
+    assert (T0 : 0 <= T) by (unfold T; lra).
+    assert (T1 : 0 <= mu * T) by (apply Rmult_le_pos; lra).
     assert (HT : 0 <= eg * eg + 4 * mu * T) by nra.
     set (s := sqrt (eg * eg + 4 * mu * T)).
     assert (Hs : 0 <= s) by apply sqrt_pos.
@@ -716,7 +718,7 @@ Proof.
 Qed.
 
 Example approx_KKT_nonvacuous :
-  (* min x^2 s.t. x - 1 >= 0: xs = 1 (lam* = 2); x = 1.1 with lam = 2.2 is an exact-stationary, complementarity-violating point *)
+  (* min x^2 s.t. x - 1 >= 0: xs = 1 (lam_s = 2); x = 1.1 with lam = 2.2 is an exact-stationary, complementarity-violating point *)
   let x := 11 / 10 in let xs := 1 in
   let cons := [(22 / 10, (fun y : R => y - 1), (fun y z : R => z - y))] in
   let cons_s := [(2, (fun y : R => y - 1), (fun y z : R => z - y))] in
